@@ -10,14 +10,19 @@ from gateways import sim
 DRIVERS = ("tridonic", "hasseb", "luba", "sci")
 
 
+class HarnessDetached(Exception):
+    """The library no longer goes through the module attributes the harness replaces: nothing can be observed."""
+
+
 class Picker:
     """Source of every nondeterministic decision: seeded RNG, a forced prefix (DFS / replay), and a log."""
 
-    def __init__(self, rng, prefix=None, overrides=None):
+    def __init__(self, rng, prefix=None, overrides=None, default="random"):
         self.rng = rng
         self.prefix = list(prefix or [])
         self.log = []                  # (label, n_options, index)
         self.overrides = overrides or {}   # label -> fixed index
+        self.default = default         # beyond the prefix: "random" (seeded) or "first" (deterministic, for DFS)
 
     def pick(self, label, options):
         n = len(options)
@@ -26,6 +31,8 @@ class Picker:
             i = self.overrides[label] % n
         elif k < len(self.prefix):
             i = self.prefix[k] % n
+        elif self.default == "first":
+            i = 0
         else:
             i = self.rng.randrange(n)
         self.log.append((label, n, i))
@@ -99,11 +106,22 @@ class Sim:
 
     async def connect(self):
         d = self.driver
+        try:
+            if self.kind in ("tridonic", "hasseb"):
+                d.connect()
+                await asyncio.wait_for(d.connected.wait(), 30.0)
+            else:
+                await asyncio.wait_for(d.connect(), 30.0)
+        except (asyncio.TimeoutError, OSError):
+            if not self.attached():
+                raise HarnessDetached(f"the {self.kind} driver never touched the shimmed I/O boundary")
+            raise
+
+    def attached(self):
+        """Did the driver reach the device model through the shims (os / serial_asyncio module attributes)?"""
         if self.kind in ("tridonic", "hasseb"):
-            d.connect()
-            await d.connected.wait()
-        else:
-            await d.connect()
+            return any(e[0] == "open" for e in self.shim.log)
+        return bool(self.fake_serial.connections)
 
     def run(self, main):
         """main(sim) is a coroutine function; returns (result, stalled)."""
